@@ -684,9 +684,20 @@ def read_src(path):
 
 
 def nth_find(text, needle, k):
+    """k-th occurrence of needle in the CODE of text: comments are blanked first (an anchor never matches inside a comment)."""
+    masked = list(text)
+    try:
+        for t in L.lex(text):
+            if t.kind == 'comment':
+                for i in range(t.s, t.e):
+                    if masked[i] != '\n':
+                        masked[i] = ' '
+    except L.LexError:
+        pass
+    masked = ''.join(masked)
     pos = -1
     for _ in range(k):
-        pos = text.find(needle, pos + 1)
+        pos = masked.find(needle, pos + 1)
         if pos < 0:
             return -1
     return pos
